@@ -708,14 +708,23 @@ func classifyE(c CaseE) core.Class {
 	}
 	cl.Labels = append(cl.Labels, fmt.Sprintf("agents:%d", c.Agents), fmt.Sprintf("logs:%v", c.Logs), fmt.Sprintf("pivot-depth:%d", maxDepth))
 	cl.NonTrivial = len(plaus) > 0
-	cl.Fingerprint = fmt.Sprintf("ag=%d|d=%d|logs=%v|%s|zero=%s|acc=%v|rep=%v", c.Agents, maxDepth, c.Logs, strings.Join(plaus, ","), strings.Join(zero, "+"), o.accEffect > 0, o.replays > 0)
+	srcs := []string{}
+	for _, sname := range []string{"completed", "foreign", "descendant"} {
+		for _, p := range plaus {
+			if strings.HasPrefix(p, sname+"/") {
+				srcs = append(srcs, sname[:4])
+				break
+			}
+		}
+	}
+	cl.Fingerprint = fmt.Sprintf("d=%d|logs=%v|rejected=%s|zero=%s", maxDepth, c.Logs, strings.Join(srcs, "+"), strings.Join(zero, "+"))
 	return cl
 }
 
 func TestC05a(t *testing.T) {
 	core.Run(t, core.Spec[CaseE]{
 		Property: "C05", Sub: "a",
-		Rule: fmt.Sprintf("histories of 1-30 operations over a forest of 2-4 agents (roots registered through the real agent endpoint, SMB children linked by a real SMB_CONNECT callback of their parent, depth <= 2; tsx.Recorder as teamserver, private loot tree, SendLogs on in 1/4 of the cases): issue a task to any agent (AddJobToQueue with a fresh request id, one of %d commands; for a child it is wrapped into COMMAND_PIVOT jobs of its ancestors), operator fs-upload (mem-file chunk tasks, direct agents), relay job without request id (SOCKS write), hand-out, callback = one of %d well-formed callback kinds (payloads as Package.c builds them) sent by any agent - directly or relayed hop by hop as COMMAND_PIVOT/SMB_COMMAND - carrying an id from {own outstanding, own completed, outstanding at a descendant / at another agent, never issued, 0}, optionally replayed byte for byte. Oracle: (1) a callback whose id was not issued to THAT agent or is completed (kind not socket/pivot, not beacon-output with SendLogs) records nothing beyond the bookkeeping of a body-less request on the same path, leaves every agent's outstanding-id list, session data and the loot tree unchanged - whatever else the teamserver queued for or through that agent; (2) after a callback from the finality table was processed with an outstanding id, the same package again, and any later callback with that id, has no effect. Non-trivial: a rejected callback of an effectful kind whose id was completed, foreign or a descendant's; distinct = (#agents, pivot depth, SendLogs, set of rejected (source, kind class), contexts of id-0 probes, accepted seen, replay seen)", len(issueCmds), len(kinds)),
+		Rule: fmt.Sprintf("histories of 1-30 operations over a forest of 2-4 agents (roots registered through the real agent endpoint, SMB children linked by a real SMB_CONNECT callback of their parent, depth <= 2; tsx.Recorder as teamserver, private loot tree, SendLogs on in 1/4 of the cases): issue a task to any agent (AddJobToQueue with a fresh request id, one of %d commands; for a child it is wrapped into COMMAND_PIVOT jobs of its ancestors), operator fs-upload (mem-file chunk tasks, direct agents), relay job without request id (SOCKS write), hand-out, callback = one of %d well-formed callback kinds (payloads as Package.c builds them) sent by any agent - directly or relayed hop by hop as COMMAND_PIVOT/SMB_COMMAND - carrying an id from {own outstanding, own completed, outstanding at a descendant / at another agent, never issued, 0}, optionally replayed byte for byte. Oracle: (1) a callback whose id was not issued to THAT agent or is completed (kind not socket/pivot, not beacon-output with SendLogs) records nothing beyond the bookkeeping of a body-less request on the same path, leaves every agent's outstanding-id list, session data and the loot tree unchanged - whatever else the teamserver queued for or through that agent; (2) after a callback from the finality table was processed with an outstanding id, the same package again, and any later callback with that id, has no effect. Non-trivial: a rejected callback of an effectful kind whose id was completed, foreign or a descendant's; distinct = (pivot depth, SendLogs, set of plausible rejected id sources, set of contexts in which id 0 was probed)", len(issueCmds), len(kinds)),
 		Gen:  genE, Check: checkE, Classify: classifyE,
 		Assumptions: []string{
 			"finality table: a callback kind ends its task only where the Demon handler (payloads/Demon/src/core/Command.c) transmits exactly one package of that kind as its last action and starts nothing that reports later; streaming/asynchronous kinds never complete a task in the model",
